@@ -171,6 +171,19 @@ def tlc_require_ok(r, what):
         raise Infra("TLC: %s failed (rc=%s)\n%s" % (what, r.rc, (r.error or r.out)[-3000:]))
 
 
+def tlapm(module, deps=(), timeout=1500, threads=12):
+    """Check the TLAPS proofs of spec/<module>.tla; returns the number of obligations proved.  Anything but
+    'All N obligations proved' is an infrastructure failure (a proof about the specification, not about the code)."""
+    wd = sub("tlapm-%s" % module)
+    for f in (module,) + tuple(deps):
+        shutil.copy(os.path.join(SPEC, f + ".tla"), wd)
+    rc, out, wall = run(["timeout", str(int(timeout)), "tlapm", "--threads", str(threads), module + ".tla"], cwd=wd)
+    m = re.search(r"All (\d+) obligations? proved", out)
+    if rc != 0 or not m:
+        raise Infra("tlapm %s: rc=%s\n%s" % (module, rc, out[-3000:]))
+    return int(m.group(1)), wall
+
+
 def kill_stray_tlc():
     subprocess.run(["pkill", "-f", "tlc2.TL[C]"], stdout=subprocess.DEVNULL, stderr=subprocess.DEVNULL)
 
